@@ -139,7 +139,14 @@ def TlcCase(case, cid, str_fill=None, cfill=DEFAULT_CFILL):
 
 # ---- rendering (twin of LLex!Render) ------------------------------------------
 
-EMPTY_LAYOUT = {'sites': [], 'wraps': [], 'semi': 0}
+EMPTY_LAYOUT = {'sites': [], 'wraps': [], 'nests': [], 'semi': 0}
+
+
+def NormLayout(lay):
+  """All four components present (nests: [{'w', 'd', 'k'}] = d layers of
+  redundant parentheses around range w with noise k between the layers)."""
+  return {'sites': list(lay.get('sites', [])), 'wraps': list(lay.get('wraps', [])),
+          'nests': list(lay.get('nests', [])), 'semi': lay.get('semi', 0)}
 
 
 def NoiseText(k, cfill):
@@ -168,10 +175,19 @@ def Render(tc, lay=None, cfill=None, strip_comments=False):
   else:
     NoiseText = globals()['NoiseText']
   n = len(toks)
+  lay = NormLayout(lay)
   site = {(s['b'], s['pos']): s['k'] for s in lay['sites']}
+
+  def Nest(ch, sel):
+    if not sel:
+      return ''
+    x = sel[0]
+    return (ch + NoiseText(x['k'], cfill)) * (x['d'] - 1) + ch
   out = []
   for b in range(n + 1):
     out.append(')' * sum(1 for w in lay['wraps'] if tc['ranges'][w - 1][1] == b))
+    out.append(Nest(')', [x for x in lay['nests']
+                          if tc['ranges'][x['w'] - 1][1] == b]))
     if b == n and lay['semi']:
       out.append(';')
     if (b, 'L') in site:
@@ -180,6 +196,8 @@ def Render(tc, lay=None, cfill=None, strip_comments=False):
       out.append(' ')
     if (b, 'R') in site:
       out.append(NoiseText(site[(b, 'R')], cfill))
+    out.append(Nest('(', [x for x in lay['nests']
+                          if tc['ranges'][x['w'] - 1][0] == b + 1]))
     out.append('(' * sum(1 for w in lay['wraps']
                          if tc['ranges'][w - 1][0] == b + 1))
     if b < n:
@@ -263,7 +281,7 @@ def RunNoise(tag, tlc_cases, max_sites, simulate=None, depth=None, seed=None,
   path = WriteNdjson(os.path.join(d, 'cases_%s%s.ndjson' % (tag, ScratchTag())),
                      tlc_cases)
   cfg = _WriteCfg('LLexNoise_%s.cfg' % tag, (
-      'SPECIFICATION Spec\nCONSTANTS\n  MaxSites = %d\n'
+      'SPECIFICATION Spec\nCONSTANTS\n  MaxSites = %d\n  MaxDepth = 3\n'
       'INVARIANT TokensPreserved\nINVARIANT CanonicalFaithful\n'
       'CHECK_DEADLOCK FALSE\n') % max_sites)
   r = tlc.Run('LLexNoise', cfg=cfg, simulate=simulate, depth=depth, seed=seed,
@@ -273,10 +291,11 @@ def RunNoise(tag, tlc_cases, max_sites, simulate=None, depth=None, seed=None,
   return _Printed(r.out, 'PLACE'), r
 
 
-def RunFills(tag, max_len, timeout=900, simulate=None, seed=None):
+def RunFills(tag, max_len, timeout=900, simulate=None, seed=None,
+             alphabet='ascii'):
   cfg = _WriteCfg('LLexFill_%s.cfg' % tag, (
-      'SPECIFICATION Spec\nCONSTANTS\n  MaxLen = %d\n'
-      'INVARIANT FillInert\nCHECK_DEADLOCK FALSE\n') % max_len)
+      'SPECIFICATION Spec\nCONSTANTS\n  MaxLen = %d\n  Alphabet = "%s"\n'
+      'INVARIANT FillInert\nCHECK_DEADLOCK FALSE\n') % (max_len, alphabet))
   r = tlc.Run('LLexFill', cfg=cfg, coverage=True, timeout=timeout,
               simulate=simulate, seed=seed, depth=max_len + 2,
               workers=4 if simulate else None,
